@@ -1,6 +1,7 @@
 import Zc.Proofs.PostState
 import Zc.Proofs.Listeners
 import Zc.GenFacts.FnCache
+import Zc.Model.BrowserCb
 /-! # C05 — record cache: all lookup paths agree with an RFC 6762 §10 reference model
 
 `Cache` (`Zc/Model/Cache.lean`) is `DNSCache` as the code has it: a dict of dicts keyed by lower-cased owner
@@ -152,6 +153,42 @@ theorem C05_purge_listeners (evs : List Event) (order : List Nat → List Nat) (
     simp only [updates_iterates_copy_eq, complete_iterates_copy_eq, remove_listener_catches_keyerror_eq, hdef, bind, Except.bind,
       notifyRound_ok, pure, Except.pure]
   exact ⟨_, reported, hd, hc, rfl, notifyRound_called _ _, notifyRound_called _ _, notifyRound_ok _ _, rfl⟩
+
+/-- **C05 (the purge at listener registration, as the listeners see it).**  `async_add_listener(l, question)` (every browser and
+lookup start) purges before it adds `l`.  After any history, with any listener set: it does not raise; the cache the listeners see is
+the purged one, swept at the one instant read; if nothing expired **nobody is called** (unlike the periodic purge); otherwise every
+listener registered before is handed, once, the `(record, record)` pairs of exactly the purged records and then, once, the complete
+call, whatever `set.add`/`set.remove` actions the callbacks perform; waiters are not notified. -/
+theorem C05_creation_purge_listeners (evs : List Event) (order : List Nat → List Nat) (ls : List Nat) (now : Ms)
+    (react1 react2 : Nat → List ListenerAct) :
+    ∃ d reported, deliverCreationPurge lower order (cacheAfter lower evs) ls now react1 react2 = .ok d
+      ∧ expire (Cache.ops lower) (cacheAfter lower evs) now = .ok (d.cache, reported)
+      ∧ d.err = none ∧ d.notify = false
+      ∧ (reported = [] → d.pairs = [] ∧ d.round1 = [] ∧ d.round2 = [] ∧ d.listeners = ls)
+      ∧ (reported ≠ [] → d.pairs = reported.map (fun r => (r, some r))
+            ∧ d.round1 = order ls ∧ d.round2 = order (notifyRound (order ls) react1).live) := by
+  obtain ⟨c', reported, hc, _⟩ := C05_purge_exact lower evs now
+  have hdef : ∀ (l : List Nat) (r : Nat → List ListenerAct), notifyRoundWith true true l r = notifyRound l r := fun _ _ => rfl
+  cases hr : reported with
+  | nil =>
+    subst hr
+    refine ⟨{ cache := c', pairs := [], listeners := ls, round1 := [], round2 := [], err := none, notify := false }, [], ?_, hc, rfl, rfl,
+      fun _ => ⟨rfl, rfl, rfl, rfl⟩, fun h => absurd rfl h⟩
+    unfold deliverCreationPurge deliverCreationPurgeWith
+    rw [add_listener_purge_expire_now_eq, hc]
+    rfl
+  | cons r0 rest =>
+    subst hr
+    refine ⟨{ cache := c', pairs := (r0 :: rest).map (fun r => (r, some r)),
+              listeners := (notifyRound (order (notifyRound (order ls) react1).live) react2).live,
+              round1 := (notifyRound (order ls) react1).called,
+              round2 := (notifyRound (order (notifyRound (order ls) react1).live) react2).called,
+              err := (notifyRound (order (notifyRound (order ls) react1).live) react2).err, notify := false }, r0 :: rest, ?_, hc,
+      notifyRound_ok _ _, rfl, fun h => (by cases h), fun _ => ⟨rfl, notifyRound_called _ _, notifyRound_called _ _⟩⟩
+    unfold deliverCreationPurge deliverCreationPurgeWith
+    rw [add_listener_purge_expire_now_eq, hc]
+    simp only [updates_iterates_copy_eq, complete_iterates_copy_eq, remove_listener_catches_keyerror_eq, hdef, bind, Except.bind,
+      notifyRound_ok, pure, Except.pure, List.isEmpty_cons, Bool.false_eq_true, if_false]
 
 theorem cacheAfter_snoc (hist : List Event) (ev : Event) :
     cacheAfter lower (hist ++ [ev]) = stepEvent lower (Cache.ops lower) (cacheAfter lower hist) ev := by
